@@ -7,7 +7,7 @@ Require Import Base.Wire Base.PyStr C19.Model.
 Open Scope Z_scope.
 
 (* ---- ledger: what a trace accepted, and where it went ---- *)
-Definition gain1 (ev : event) : list entry := match ev with Accepted e => [e] | _ => [] end.
+Definition gain1 (ev : event) : list entry := match ev with Accepted _ e => [e] | _ => [] end.
 Definition delivered1 (ev : event) : list entry := match ev with Delivered e _ _ => [e] | _ => [] end.
 Definition dropped1 (ev : event) : list entry := match ev with Dropped e => [e] | _ => [] end.
 Definition flushed1 (ev : event) : list entry := match ev with Flushed l => l | _ => [] end.
@@ -60,3 +60,55 @@ Fixpoint joinrate_ok (lim : Z) (last : option Z) (evs : list event) : bool :=
    the low-priority class (the only branch of dequeue that tests it) *)
 Definition join_is_low : bool :=
   match classify gen.T19.JOIN_CMD with Low => true | _ => false end.
+
+(* ---- the abstract sender: an express queue, three FIFO queues, a throttle and
+   a JOIN rate limit.  Its state: the four queues, the time of the last release
+   from the three queues, of the last JOIN so released, and the entry in flight
+   (taken, fate not yet known).  Its steps are labelled by the observable events. *)
+Record ast := A { xf : list entry; xh : list entry; xn : list entry; xl : list entry;
+                  xt : option Z; xj : option Z; xin : option entry }.
+Definition A0 : ast := A [] [] [] [] None None None.
+Definition apush (a : ast) (e : entry) : ast :=
+  match ecls e with
+  | High => A (xf a) (xh a ++ [e]) (xn a) (xl a) (xt a) (xj a) (xin a)
+  | Normal => A (xf a) (xh a) (xn a ++ [e]) (xl a) (xt a) (xj a) (xin a)
+  | Low => A (xf a) (xh a) (xn a) (xl a ++ [e]) (xt a) (xj a) (xin a)
+  end.
+(* the head of the most urgent non-empty queue *)
+Definition apop (h n l : list entry) : option (entry * (list entry * list entry * list entry)) :=
+  match h, n, l with
+  | e :: h', _, _ => Some (e, (h', n, l))
+  | [], e :: n', _ => Some (e, ([], n', l))
+  | [], [], e :: l' => Some (e, ([], [], l'))
+  | [], [], [] => None
+  end.
+Definition fate (e : entry) (ev : event) : Prop :=
+  match ev with
+  | Delivered e' out _ => e' = e /\ menc out = true      (* handed to the driver *)
+  | Dropped e' => e' = e                                 (* an outFilter said no *)
+  | Unsendable e' out => e' = e /\ menc out = false      (* no wire form *)
+  | _ => False
+  end.
+Definition silent (ev : event) : Prop :=
+  match ev with Refused _ _ => True | Reconnect => True | DriverDie => True | _ => False end.
+Inductive astep (thr lim : Z) : ast -> event -> ast -> Prop :=
+| s_accF f h n l t j i e : astep thr lim (A f h n l t j i) (Accepted FromFast e) (A (f ++ [e]) h n l t j i)
+| s_accQ a e : astep thr lim a (Accepted FromQueue e) (apush a e)
+| s_tookF f h n l t j e now :
+    astep thr lim (A (e :: f) h n l t j None) (Took FromFast e now) (A f h n l t j (Some e))
+| s_tookQ h n l t j e now h' n' l' :                      (* only with the express queue empty *)
+    apop h n l = Some (e, (h', n', l')) ->
+    (forall t0, t = Some t0 -> thr < now - t0) ->                          (* throttle *)
+    (is_join e = true -> forall t0, j = Some t0 -> t0 + lim <= now) ->     (* JOIN rate *)
+    astep thr lim (A [] h n l t j None) (Took FromQueue e now)
+          (A [] h' n' l' (Some now) (if is_join e then Some now else j) (Some e))
+| s_fate f h n l t j e ev : fate e ev -> astep thr lim (A f h n l t j (Some e)) ev (A f h n l t j None)
+| s_flush f h n l t j : astep thr lim (A f h n l t j None) (Flushed (f ++ h ++ n ++ l)) A0
+| s_silent a ev : silent ev -> astep thr lim a ev a.
+(* unobservable: a JOIN at the head of the low queue is sent to its tail (held back) *)
+Inductive arot : ast -> ast -> Prop :=
+| r_rot f h n l t j i e : is_join e = true -> arot (A f h n (e :: l) t j i) (A f h n (l ++ [e]) t j i).
+Inductive accepts (thr lim : Z) : ast -> list event -> ast -> Prop :=
+| acc_nil a : accepts thr lim a [] a
+| acc_ev a ev a1 evs a2 : astep thr lim a ev a1 -> accepts thr lim a1 evs a2 -> accepts thr lim a (ev :: evs) a2
+| acc_tau a a1 evs a2 : arot a a1 -> accepts thr lim a1 evs a2 -> accepts thr lim a evs a2.
